@@ -60,6 +60,15 @@ theorem disjoint_writes_any_schedule {α : Type} (tasks : List (List (Step α)))
     · exact hin _ i h hwb
     · exact hdisj _ _ i (Ne.symm hne) hwb h
 
+/-- … in particular EVERY permutation of whole tasks (execution orders at task granularity; different tasks carry
+    different task numbers) -/
+theorem any_task_permutation_eq_sequential {α : Type} (tasks tasks' : List (List (Step α))) (hperm : tasks.Perm tasks')
+    (hdist : tasks.Pairwise (fun l l' => ∀ a ∈ l, ∀ b ∈ l', a.task ≠ b.task)) (R W : Step α → Nat → Prop)
+    (hfp : ∀ st ∈ tasks.flatten, Footprint st (R st) (W st))
+    (hni : ∀ a ∈ tasks.flatten, ∀ b ∈ tasks.flatten, a.task ≠ b.task → NonInterfering (R a) (W a) (R b) (W b))
+    (s : Nat → α) : runAll tasks'.flatten s = runAll tasks.flatten s :=
+  any_schedule_eq_sequential tasks R W hfp hni _ (perm_tasks_isSchedule tasks tasks' hperm hdist) s
+
 /-- a concrete instance of the hypotheses: two tasks of two steps each on a 4-element array (task 0 fills 0 and 1
     from the input cell 9, task 1 fills 2 and then 3 from its own earlier write), interleaved 1,0,1,0 -/
 example :
@@ -107,6 +116,20 @@ theorem trace_fragments_partition (a b : Nat) (ha : 3 ≤ a) (hb1 : 1 ≤ b) (hb
     Partition ((List.range (2 ^ (a - b))).map (fun i => (i * 2 ^ b, 2 ^ b))) (2 ^ a) :=
   ⟨traceFragments_eq a b ha hb1 hb, traceFragments_partition a b hb⟩
 
+/-- `acc_column` (transition divisor branch) indexes the inverse divisor evaluations with the batch-local index,
+    `z[i % z.len()]`, although `z` is periodic in the GLOBAL row index `batch_offset + i`. Whenever batches are used
+    (`batch_size = 2^e / 2^b ≥ 128`, the macro's minimum) every batch offset `k * batch_size` is a multiple of
+    `z.len() = 2^c` (the constraint-evaluation blowup, at most 128 = the largest blowup factor `ProofOptions` accepts),
+    so both indexes agree -/
+theorem acc_column_local_index (e b c k i : Nat) (hb : b ≤ e) (hmin : 128 ≤ 2 ^ (e - b)) (hc : c ≤ 7) :
+    (k * 2 ^ (e - b) + i) % 2 ^ c = i % 2 ^ c := by
+  have h7 : 7 ≤ e - b := by
+    rcases Nat.lt_or_ge (e - b) 7 with h | h
+    · have : 2 ^ (e - b) < 2 ^ 7 := Nat.pow_lt_pow_right (by decide) h
+      omega
+    · exact h
+  have hd : 2 ^ (e - b) = 2 ^ c * 2 ^ (e - b - c) := by rw [← Nat.pow_add]; congr 1; omega
+  rw [hd, ← Nat.mul_assoc, Nat.mul_comm k, Nat.mul_assoc, Nat.add_comm, Nat.add_mul_mod_self_left]
 /-- the batches of the row-matrix transposition hold whole rows and account for all rows -/
 theorem transpose_batches_whole_rows (a numSegs threads : Nat) :
     let r := transposeBatches (2 ^ a) numSegs threads
